@@ -54,10 +54,14 @@ def optMax (a : Option Rat) (b : Rat) : Option Rat := match a with | none => som
 def foldMin (l : List Rat) : Option Rat := l.foldl optMin none
 def foldMax (l : List Rat) : Option Rat := l.foldl optMax none
 
-/-- `Layout.bounding_box`: the four accumulators of the loop are independent of each
-other, so the loop is four folds.  `none` = ValueError (incomplete data). -/
+/-- a zone has sites iff neither axis is empty -/
+def hasSites (g : Grid) : Bool := g.xInit.isSome && g.yInit.isSome
+
+/-- `Layout.bounding_box`: zones with an empty axis (no sites) are skipped; the four
+accumulators of the loop are independent of each other, so the loop is four folds.
+`none` = ValueError (incomplete data). -/
 def boundingBox (l : Layout) : Option (Rat × Rat × Rat × Rat) :=
-  let zs := l.zones.map (·.2)
+  let zs := (l.zones.map (·.2)).filter hasSites
   match foldMin (zs.filterMap (·.xInit)),
         foldMax (zs.filterMap fun z => z.xInit.map (· + z.width)),
         foldMin (zs.filterMap (·.yInit)),
